@@ -271,7 +271,13 @@ impl datagram_pipe::Sink for MultiplexerSink {
         #[cfg(trusttunnel_verif)]
         verif_outcome.stage("send");
 
-        socket.send(datagram.payload.as_ref()).await?;
+        if let Err(e) = socket.send(datagram.payload.as_ref()).await {
+            // An error reported by a connected UDP socket (for example, ECONNREFUSED after
+            // an ICMP "port unreachable") concerns that flow only: the datagram is lost,
+            // the multiplexer and the other flows must go on
+            log::debug!("Failed to send UDP datagram: meta={:?} error={}", meta, e);
+            return Ok(datagram_pipe::SendStatus::Dropped);
+        }
         #[cfg(trusttunnel_verif)]
         verif_outcome.ok();
 
